@@ -59,6 +59,13 @@ def jobs_parser(tier):
                     continue
                 out.append({"name": "parserule-%s-%s-%s-e%d-m%d" % (KEYS[a], KEYS[b], KEYS[c], empty1, map2), "func": "VerifHarness_ParseRule",
                             "params": {"k0": a, "k1": b, "k2": c, "empty1": empty1, "map2": map2}, "unwind": 60, "reach": ["end"]})
+    # the YAML-inside-YAML heuristic of parseNode: a multi-line scalar on every line of the file
+    shapes = [(2, 1, 3), (3, 2, 3)] if tier == "quick" else [(2, 1, 3), (3, 2, 3), (3, 1, 4), (4, 2, 3), (1, 2, 3), (4, 0, 4)]
+    for (nl, ll, vl) in shapes:
+        for line in range(1, nl + 1):
+            out.append({"name": "parsenode-n%d-l%d-v%d-at%d" % (nl, ll, vl, line), "func": "VerifHarness_ParseNodeScalar",
+                        "params": {"nlines": nl, "linelen": ll, "vlen": vl, "line": line, "k0": 0, "k1": 0, "k2": 0, "empty1": 0, "map2": 0}, "unwind": 60,
+                        "reach": ["end"] + (["inner-yaml"] if line < nl else [])})
     return out
 
 def jobs_reporter(tier):
